@@ -28,8 +28,11 @@ def execute(job):
     log = job["method"] == "log"
     th2 = np.array(job["thetas"], dtype="float64")      # abstract theta (exponents for log)
     lev2 = [np.array(l, dtype="float64") / 2.0 for l in job["levels"]]  # abstract levels (half-integers)
-    real_th = np.power(2.0, th2) if log else th2
-    real_lev = [np.power(2.0, l) if log else l for l in lev2]
+    base, eps = job.get("affine", (0.0, 1.0))
+    # the interpolant is invariant under theta -> base + eps * theta applied to target_data and levels alike (exact in
+    # binary for the values used): large values that differ only far behind the point are the same columns
+    real_th = np.power(2.0, th2) if log else base + eps * th2
+    real_lev = [np.power(2.0, l) if log else base + eps * l for l in lev2]
     phis = np.array(job["phis"], dtype="float64")
     recs = []
     exp_name, exp_dim = "-", "-"
@@ -150,8 +153,11 @@ def gen_jobs(rng, thorough):
         lv = [first] + [[rng.choice(range(-2, 2 * T2 + 3)) for _ in first] for _ in range(ncol - 1)] if target == "nd" else [first]
         ids = list(range(cid + 1, cid + 1 + ncol))
         cid += ncol
+        affine = (0.0, 1.0)
+        if method == "linear" and rng.random() < 0.3:
+            affine = rng.choice([(1024.0, 2.0 ** -10), (1024.0, 2.0 ** -14), (-8.0, 0.5), (0.0, 2.0 ** -20)])
         jobs.append({"via": via, "method": method, "thetas": thetas, "phis": [[rng.randint(-6, 6) for _ in range(n)] for _ in range(ncol)],
-                     "levels": lv, "mask": rng.random() < 0.5, "bypass": bypass, "ids": ids, "seed": cid, "target": target,
+                     "affine": list(affine), "levels": lv, "mask": rng.random() < 0.5, "bypass": bypass, "ids": ids, "seed": cid, "target": target,
                      "suffix": rng.choice([None, None, "_x", ""]), "chunk": rng.random() < 0.4, "extra_first": rng.random() < 0.5, "td_default": td_default})
     return jobs
 
